@@ -66,6 +66,7 @@ type passKey struct {
 	point string
 	conn  int
 	tag   int
+	g     int // tag of the request whose worker goroutine passed the point (AnyTag = any)
 }
 
 // Ctl is the controller of one scenario.
@@ -226,10 +227,13 @@ func (c *Ctl) point(point string, obj interface{}) {
 		c.Log.Add(script.Event{Kind: "pt", Op: point, Conn: w.Conn, Tag: uint16(w.Tag), Info: gtagInfo(w)})
 	}
 	c.mu.Lock()
-	c.passed[passKey{point, w.Conn, w.Tag}]++
-	c.passed[passKey{point, 0, w.Tag}]++
-	c.passed[passKey{point, w.Conn, AnyTag}]++
-	c.passed[passKey{point, 0, AnyTag}]++
+	c.passed[passKey{point, w.Conn, w.Tag, AnyTag}]++
+	c.passed[passKey{point, 0, w.Tag, AnyTag}]++
+	c.passed[passKey{point, w.Conn, AnyTag, AnyTag}]++
+	c.passed[passKey{point, 0, AnyTag, AnyTag}]++
+	if w.Gtag >= 0 {
+		c.passed[passKey{point, w.Conn, w.Tag, w.Gtag}]++
+	}
 	c.npoints++
 	if len(c.order) < 8192 {
 		c.order = append(c.order, point+"/"+itoa(w.Tag))
@@ -278,11 +282,16 @@ func (c *Ctl) HoldAt(point string, conn, tag, gtag int, budget time.Duration) *H
 func (c *Ctl) Passed(point string, conn, tag int) int {
 	c.mu.Lock()
 	defer c.mu.Unlock()
-	return c.passed[passKey{point, conn, tag}]
+	return c.passed[passKey{point, conn, tag, AnyTag}]
 }
 
 // WaitPassed waits until (point, conn, tag) has been passed at least n times.
 func (c *Ctl) WaitPassed(point string, conn, tag, n int, d time.Duration) bool {
+	return c.WaitPassedG(point, conn, tag, AnyTag, n, d)
+}
+
+// WaitPassedG is WaitPassed restricted to passes made on the worker goroutine of request gtag.
+func (c *Ctl) WaitPassedG(point string, conn, tag, gtag, n int, d time.Duration) bool {
 	deadline := time.Now().Add(d)
 	timer := time.AfterFunc(d, func() {
 		c.mu.Lock()
@@ -292,7 +301,7 @@ func (c *Ctl) WaitPassed(point string, conn, tag, n int, d time.Duration) bool {
 	defer timer.Stop()
 	c.mu.Lock()
 	defer c.mu.Unlock()
-	for c.passed[passKey{point, conn, tag}] < n {
+	for c.passed[passKey{point, conn, tag, gtag}] < n {
 		if time.Now().After(deadline) {
 			return false
 		}
